@@ -3,8 +3,10 @@ import RpmVerif.Spec.Vercmp
 import RpmVerif.Model.Version
 /-! Driver for C13. Ops:
   `vercmp A B`                      – `Evr::new("",A,"").cmp(..)`   (A, B hex of UTF-8)
-  `evrcmp E1 V1 R1 E2 V2 R2`        – `Evr::cmp` and `==`            obs `ord,eqflag`
-  `nevracmp N1 E1 V1 R1 A1 N2 …`    – `Nevra::cmp` and `==`
+  `evrcmp E1 V1 R1 E2 V2 R2`        – `Evr::cmp`, `==`, `partial_cmp`, `<`, `<=`, `>`, `>=`, `max`, `min`
+                                      obs `ord,eqflag,pc,lt,le,gt,ge,max,min` (pc ∈ lt|eq|gt|none; flags 0|1; max / min name the
+                                      argument that came back: l | r | b (both arguments are field-wise alike) | ?)
+  `nevracmp N1 E1 V1 R1 A1 N2 …`    – the same for `Nevra`
 The spec side is rpm's algorithm run on the UTF-8 *bytes*, the model runs on code points. -/
 namespace RpmVerif.Driver.C13
 open RpmVerif.Vercmp RpmVerif.Driver
@@ -19,6 +21,30 @@ def rankLabel (a b : List Nat) : String :=
 def cEvr (e1 v1 r1 e2 v2 r2 : List Nat) : Ordering :=
   (cVercmp (epochOr0 e1) (epochOr0 e2)).then ((cVercmp v1 v2).then (cVercmp r1 r2))
 
+def b01 (b : Bool) : String := if b then "1" else "0"
+def pcStr : Option Ordering → String | some o => ordStr o | none => "none"
+/-- which argument came back from `max` / `min` -/
+def which {α} [DecidableEq α] (m x y : α) : String :=
+  if x = y then "b" else if m = x then "l" else if m = y then "r" else "?"
+
+def opsObs (ord : Ordering) (eq : Bool) (pc : Option Ordering) (lt le gt ge : Bool) (mx mn : String) : String :=
+  ",".intercalate [ordStr ord, toString eq, pcStr pc, b01 lt, b01 le, b01 gt, b01 ge, mx, mn]
+
+/-- the property on one observation, `so` = rpm's order of the two values: `cmp` says `so`; `==` only where `cmp` says
+Equal; `partial_cmp`, `<`, `<=`, `>`, `>=` all tell the same relation; `max` / `min` hand back an argument that is an upper /
+lower bound (on a tie either one will do) -/
+def judgeOps (so : Ordering) (impl : String) : String :=
+  match impl.splitOn "," with
+  | [o, e, pc, lt, le, gt, ge, mx, mn] =>
+    if o != ordStr so then "fails"
+    else if e == "true" && o != "eq" then "fails:eq-but-not-equal"
+    else if pc != ordStr so then "fails:partial-cmp"
+    else if lt != b01 (so == .lt) || le != b01 (so != .gt) || gt != b01 (so == .gt) || ge != b01 (so != .lt) then "fails:operator"
+    else if !((mx == "b") || (so != .gt && mx == "r") || (so != .lt && mx == "l")) then "fails:max"
+    else if !((mn == "b") || (so != .gt && mn == "l") || (so != .lt && mn == "r")) then "fails:min"
+    else "holds"
+  | _ => if impl == "panic" then "fails:panic" else "fails:malformed"
+
 def handle (op : String) (args : List String) (impl : String) : String :=
   match op, args with
   | "vercmp", [ha, hb] =>
@@ -32,26 +58,20 @@ def handle (op : String) (args : List String) (impl : String) : String :=
     match [e1, v1, r1, e2, v2, r2].mapM codePointsOfHex, [e1, v1, r1, e2, v2, r2].mapM bytesOfHex with
     | some [a1, a2, a3, b1, b2, b3], some [c1, c2, c3, d1, d2, d3] =>
       let x : Evr := ⟨a1, a2, a3⟩; let y : Evr := ⟨b1, b2, b3⟩
-      let m := ordStr (x.cmp y) ++ "," ++ toString (x.eq y)
+      let m := opsObs (x.cmp y) (x.eq y) (x.partialCmp y) (x.lt y) (x.le y) (x.gt y) (x.ge y) (which (x.max y) x y) (which (x.min y) x y)
       let so := cEvr (natsOfBytes c1) (natsOfBytes c2) (natsOfBytes c3) (natsOfBytes d1) (natsOfBytes d2) (natsOfBytes d3)
-      -- spec: ordering equals the rpm ordering; and "equal ⇒ compares equal"
-      let ok := match impl.splitOn "," with
-        | [o, e] => o == ordStr so && (e != "true" || o == "eq")
-        | _ => false
-      answer m (verdictOf ok) ("evr-" ++ ordStr so)
+      -- spec: ordering equals the rpm ordering; "equal ⇒ compares equal"; the operators tell the same relation
+      answer m (judgeOps so impl) ("evr-" ++ ordStr so ++ (if x.eq y then "-alike" else ""))
     | _, _ => badReq "utf8"
   | "nevracmp", [n1, e1, v1, r1, a1, n2, e2, v2, r2, a2] =>
     match [n1, e1, v1, r1, a1, n2, e2, v2, r2, a2].mapM codePointsOfHex,
           [n1, e1, v1, r1, a1, n2, e2, v2, r2, a2].mapM bytesOfHex with
     | some [x1, x2, x3, x4, x5, y1, y2, y3, y4, y5], some [c1, c2, c3, c4, c5, d1, d2, d3, d4, d5] =>
       let x : Nevra := ⟨x1, ⟨x2, x3, x4⟩, x5⟩; let y : Nevra := ⟨y1, ⟨y2, y3, y4⟩, y5⟩
-      let m := ordStr (x.cmp y) ++ "," ++ toString (x.eq y)
+      let m := opsObs (x.cmp y) (x.eq y) (x.partialCmp y) (x.lt y) (x.le y) (x.gt y) (x.ge y) (which (x.max y) x y) (which (x.min y) x y)
       let n := natsOfBytes
       let so := (cVercmp (n c1) (n d1)).then ((cEvr (n c2) (n c3) (n c4) (n d2) (n d3) (n d4)).then (cVercmp (n c5) (n d5)))
-      let ok := match impl.splitOn "," with
-        | [o, e] => o == ordStr so && (e != "true" || o == "eq")
-        | _ => false
-      answer m (verdictOf ok) ("nevra-" ++ ordStr so)
+      answer m (judgeOps so impl) ("nevra-" ++ ordStr so ++ (if x.eq y then "-alike" else ""))
     | _, _ => badReq "utf8"
   | "evrstrcmp", [hs, ht] =>
     match codePointsOfHex hs, codePointsOfHex ht, bytesOfHex hs, bytesOfHex ht with
